@@ -3,6 +3,7 @@
 mod core;
 mod model;
 mod monitors;
+mod progs;
 mod props;
 mod ser_model;
 mod values;
